@@ -242,9 +242,9 @@ where
 	Ok(())
 }
 
-/// Creates a new output in the wallet for the recipient,
-/// returning the key of the fresh output
-/// Also creates a new transaction containing the output
+/// Builds a new output for the recipient, returning the key of the fresh output,
+/// the context, and the not yet persisted tx log entry and output record
+/// (see `save_recipient_output`)
 pub fn build_recipient_output<'a, T: ?Sized, C, K>(
 	wallet: &mut T,
 	keychain_mask: Option<&SecretKey>,
@@ -253,14 +253,14 @@ pub fn build_recipient_output<'a, T: ?Sized, C, K>(
 	parent_key_id: Identifier,
 	use_test_rng: bool,
 	is_initiator: bool,
-) -> Result<(Identifier, Context, TxLogEntry), Error>
+) -> Result<(Identifier, Context, TxLogEntry, OutputData), Error>
 where
 	T: WalletBackend<'a, C, K>,
 	C: NodeClient + 'a,
 	K: Keychain + 'a,
 {
 	// Create a potential output for this transaction
-	let key_id = keys::next_available_key(wallet, keychain_mask).unwrap();
+	let key_id = keys::next_available_key(wallet, keychain_mask)?;
 	let keychain = wallet.keychain(keychain_mask)?;
 	let key_id_inner = key_id.clone();
 	let amount = slate.amount;
@@ -280,9 +280,8 @@ where
 	context.amount = amount;
 	context.fee = slate.fee_fields.as_opt();
 	let commit = wallet.calc_commit_for_cache(keychain_mask, amount, &key_id_inner)?;
-	let mut batch = wallet.batch(keychain_mask)?;
-	let log_id = batch.next_tx_log_id(&parent_key_id)?;
-	let mut t = TxLogEntry::new(parent_key_id.clone(), TxLogEntryType::TxReceived, log_id);
+	// the log id is assigned when the entry is saved
+	let mut t = TxLogEntry::new(parent_key_id.clone(), TxLogEntryType::TxReceived, 0);
 	t.tx_slate_id = Some(slate_id);
 	t.amount_credited = amount;
 	t.num_outputs = 1;
@@ -295,7 +294,7 @@ where
 		t.kernel_excess = Some(e)
 	}
 	t.kernel_lookup_min_height = Some(current_height);
-	batch.save(OutputData {
+	let output = OutputData {
 		root_key_id: parent_key_id.clone(),
 		key_id: key_id_inner.clone(),
 		mmr_index: None,
@@ -306,12 +305,34 @@ where
 		height: height,
 		lock_height: 0,
 		is_coinbase: false,
-		tx_log_entry: Some(log_id),
-	})?;
-	batch.save_tx_log_entry(t.clone(), &parent_key_id)?;
-	batch.commit()?;
+		tx_log_entry: None,
+	};
 
-	Ok((key_id, context, t))
+	Ok((key_id, context, t, output))
+}
+
+/// Persists the recipient's output and its tx log entry in one batch,
+/// once the recipient's part of the exchange has succeeded
+pub fn save_recipient_output<'a, T: ?Sized, C, K>(
+	wallet: &mut T,
+	keychain_mask: Option<&SecretKey>,
+	parent_key_id: &Identifier,
+	mut t: TxLogEntry,
+	mut output: OutputData,
+) -> Result<TxLogEntry, Error>
+where
+	T: WalletBackend<'a, C, K>,
+	C: NodeClient + 'a,
+	K: Keychain + 'a,
+{
+	let mut batch = wallet.batch(keychain_mask)?;
+	let log_id = batch.next_tx_log_id(parent_key_id)?;
+	t.id = log_id;
+	output.tx_log_entry = Some(log_id);
+	batch.save(output)?;
+	batch.save_tx_log_entry(t.clone(), parent_key_id)?;
+	batch.commit()?;
+	Ok(t)
 }
 
 /// Builds a transaction to send to someone from the HD seed associated with the
